@@ -236,6 +236,38 @@ def object_oracle(res, rng, s, parts, tier):
     def mk(a, b, name):
         return ComplexS([dom[x] if x != '+' else '+' for x in a], list(b), name=name)
 
+    # the components do not depend on the representation: a `turns` assignment before the split (with or without tables filled by
+    # earlier queries) changes at most the ORDER in which split() yields them (and with it which automatic name goes to which new
+    # component) - never the set of components, their being singletons, or the identity of the objects on a second split
+    for v in rng.sample([1, 2, -1, 3], 2):
+        clear_singletons(ComplexS)
+        ComplexS.ID = 1
+        ComplexS.PREFIX = 'c'
+        desc = {'op': ['ComplexS.turns = %d, then split()' % v, ' '.join(names), s]}
+        try:
+            whole = mk(names, s, 'whole')
+            if rng.random() < 0.5:
+                for q in rng.sample(['connected', 'exterior', 'pairs', 'strands', 'size'], 2):
+                    try:
+                        if q == 'connected': whole.is_connected
+                        elif q == 'exterior': whole.exterior_domains
+                        elif q == 'pairs': list(whole.pair_table)
+                        elif q == 'strands': list(whole.strand_table)
+                        else: whole.size
+                    except Exception as e:
+                        e = None
+            whole.turns = v
+            got = list(whole.split())
+            got2 = list(whole.split())
+            want = sorted(min(ref.rotations(a, b)) for a, b in comps)
+            have = sorted(min(ref.rotations(list(map(str, g.sequence)), list(g.structure))) for g in got)
+            if want != have or len(got2) != len(got) or any(x is not y for x, y in zip(got, got2)):
+                res.violation('split():after-turns', desc, '%d parts: %s' % (len(got), [' '.join(map(str, g.sequence)) + ' / ' + ''.join(g.structure) for g in got][:4]),
+                              'the %d components of the complex (in any order), identical objects on a second split' % len(comps))
+            res.count('turned_before_split')
+            del whole, got, got2
+        except Exception as e:
+            res.violation('split():after-turns:raises:' + type(e).__name__, desc, '%s: %s' % (type(e).__name__, str(e)[:80]), 'the components'); e = None
     for sub in subsets:
         for collide in (False, True):
             clear_singletons(ComplexS)
